@@ -411,6 +411,12 @@ impl SimChain {
             .expect("chain root")
     }
 
+    /// the MMR node stored at `pos`
+    pub fn mmr_node(&self, pos: u64) -> Option<packed::HeaderDigest> {
+        use ckb_merkle_mountain_range::MMRStore;
+        (&self.store).get_elem(pos).ok().flatten()
+    }
+
     /// header, uncles hash, extension and the parent chain root (default for genesis)
     pub fn verifiable_header(&self, number: u64) -> packed::VerifiableHeader {
         let block = &self.blocks[number as usize];
